@@ -841,6 +841,12 @@ func (r *Reader) Markdown() (string, error) {
 
 // MarkdownWithOptions returns HTML content as Markdown with options.
 func (r *Reader) MarkdownWithOptions(opts ExtractOptions) (string, error) {
+	return r.markdown(opts, 0, 6)
+}
+
+// markdown renders the elements as Markdown. Heading levels are shifted by headingOffset and
+// capped at maxHeading (0: no configured cap); they never leave the range 1..6.
+func (r *Reader) markdown(opts ExtractOptions, headingOffset, maxHeading int) (string, error) {
 	var result strings.Builder
 
 	elements := r.getElements(opts.NavigationExclusion)
@@ -850,9 +856,17 @@ func (r *Reader) MarkdownWithOptions(opts ExtractOptions) (string, error) {
 			if result.Len() > 0 {
 				result.WriteString("\n\n")
 			}
-			for i := 0; i < elem.Level; i++ {
-				result.WriteString("#")
+			level := elem.Level + headingOffset
+			if level < 1 {
+				level = 1
 			}
+			if maxHeading > 0 && level > maxHeading {
+				level = maxHeading
+			}
+			if level > 6 {
+				level = 6
+			}
+			result.WriteString(strings.Repeat("#", level))
 			result.WriteString(" ")
 			result.WriteString(elem.Text)
 
@@ -957,7 +971,7 @@ func (r *Reader) MarkdownWithRAGOptions(extractOpts ExtractOptions, mdOpts rag.M
 	}
 
 	// Generate main content
-	md, err := r.MarkdownWithOptions(extractOpts)
+	md, err := r.markdown(extractOpts, mdOpts.HeadingLevelOffset, mdOpts.MaxHeadingLevel)
 	if err != nil {
 		return "", err
 	}
